@@ -15,5 +15,9 @@ meta = dict(property=pid, name=name, confirmed=confirmed,
                      how="git -C /repo apply patch.diff; pytest; demo.py; ./check <id>; git -C /repo checkout -- ."),
             checks={p: dict(exit=c["rc"], wall_s=c["wall"], verdict=[l for l in c["lines"] if l.startswith("VIOLATION")][:3]) for p, c in res.get("checks", {}).items()},
             detected=any(c["rc"] == 1 for c in res.get("checks", {}).values()))
+try:
+    meta["strengthened"] = json.load(open("/verif/seeded/strengthened.json")).get(name, "")
+except Exception:
+    meta["strengthened"] = ""
 json.dump(meta, open(os.path.join(dst, "meta.json"), "w"), indent=1)
 print(name, "confirmed" if confirmed else "NOT CONFIRMED", "detected" if meta["detected"] else "MISSED", {p: c["exit"] for p, c in meta["checks"].items()})
